@@ -201,11 +201,80 @@ func (ex *Exec) MergeLaws(fn *ssa.Function, fc *contract.Func, d Denot) (ng *Not
 		}
 		res := out.Ret[0].(Bool).T
 		after := ex.Expresses(out.St, d, r, f)
+		wit := ex.mergeWitness(entry, d, r, o, f)
+		meta := map[string]string{"rel": relOf(fn), "type": TypeName(fn.Params[0].Type()), "denot": denotText(d)}
 		ex.AddObl(out.St, "law", "merge/sound", out.Pos, smt.Imp(res, smt.Eq(after, before)))
+		if ex.mute == 0 {
+			ob := ex.Obls[len(ex.Obls)-1]
+			ob.Witness, ob.Replay, ob.Meta = wit, "merge", meta
+		}
 		ex.AddObl(out.St, "law", "merge/unchanged-when-false", out.Pos, smt.Imp(smt.Not(res), ex.Unchanged(entry, out.St, r)))
+		if ex.mute == 0 {
+			ob := ex.Obls[len(ex.Obls)-1]
+			ob.Witness, ob.Replay, ob.Meta = wit, "merge", meta
+		}
 		if fc.HasAssigns {
 			ex.frameObligations(out.St, entry, fn, fc, args, out.Pos)
 		}
 	}
 	return nil
+}
+
+func denotText(d Denot) string {
+	var ps []string
+	for _, p := range d.Perms {
+		if p.All {
+			ps = append(ps, p.Field+" all")
+		} else {
+			ps = append(ps, p.Field)
+		}
+	}
+	return "qualifier(" + strings.Join(d.Qualifier, ",") + ") subject(" + strings.Join(d.Subject, ",") + ") perms(" + strings.Join(ps, ",") + ")"
+}
+
+// mergeWitness: the fields of both rules (entry state) and the fixed fact, with strings
+// read back as equality classes (opaque mode).
+func (ex *Exec) mergeWitness(entry *State, d Denot, r, o Ptr, f Fact) []WitnessVar {
+	var out []WitnessVar
+	for _, it := range []struct {
+		n string
+		p Ptr
+	}{{"r", r}, {"o", o}} {
+		t := typeAt(it.p.Root, it.p.Path)
+		var ls []leaf
+		leaves(t, nil, "", &ls)
+		for _, l := range ls {
+			if strings.HasPrefix(l.Names, "Base.") || l.Names == "Base" {
+				continue
+			}
+			pp := it.p
+			pp.Path = append(append([]Step(nil), it.p.Path...), l.Path...)
+			v := ex.Load(entry, pp, l.Type)
+			name := it.n + "." + l.Names
+			switch x := v.(type) {
+			case Int:
+				out = append(out, WitnessVar{Name: name, Kind: "int", Term: x.T})
+			case Bool:
+				out = append(out, WitnessVar{Name: name, Kind: "bool", Term: x.T})
+			case Str:
+				out = append(out, WitnessVar{Name: name, Kind: "ostr", Term: x.T})
+			case Slice:
+				if mustSort(x.Elem) == "Str" {
+					out = append(out, WitnessVar{Name: name, Kind: "ostrs", Term: x.Arr, Len: x.Len})
+				}
+			}
+		}
+	}
+	for n, v := range f.Scalars {
+		switch x := v.(type) {
+		case Bool:
+			out = append(out, WitnessVar{Name: "fact." + n, Kind: "bool", Term: x.T})
+		case Str:
+			out = append(out, WitnessVar{Name: "fact." + n, Kind: "ostr", Term: x.T})
+		}
+	}
+	for n, t := range f.Elems {
+		out = append(out, WitnessVar{Name: "fact." + n, Kind: "ostr", Term: t})
+	}
+	return out
 }
